@@ -212,7 +212,8 @@ def short_path(p):
     if p is None:
         return "?"
     p = strip_generics(p)
-    p = re.sub(r"\b(?:[a-z_][a-z0-9_]*::)+", "", p)
+    p = re.sub(r"\b(?:[a-z_][a-z0-9_]*::)+(?=[A-Z<])", "", p)
+    p = re.sub(r"\b(?:[a-z_][a-z0-9_]*::)+(?=[a-z_][a-z0-9_]*(?:::\{|$|>))", "", p)
     return p
 
 
